@@ -238,6 +238,8 @@ def _why_narrower(da, db, out=None):
     fb = dict((k, v) for k, v in db.get('fields', []))
     for k, v in da.get('fields', []):
       if k in fb:
+        if not specs.has_default(v) and specs.has_default(fb[k]):
+          out.add('field-required-vs-default')
         _why_narrower(v, fb[k], out)
     if ta == 'dict' and da.get('dyn') and db.get('dyn'):
       _why_narrower(da['dyn'], db['dyn'], out)
@@ -252,6 +254,27 @@ def _why_narrower(da, db, out=None):
 def _shared_view(v, base_desc, ext_desc):
   """Restrict a dict/object value accepted by the extension to the keys the base declares."""
   return v
+
+
+def _enum_vs_base(da, db):
+  """Is there a position where the extension (b) is an Enum and the base (a) is not?"""
+  if not isinstance(da, dict) or not isinstance(db, dict):
+    return False
+  if db.get('t') == 'enum' and da.get('t') != 'enum':
+    return True
+  pairs_ = []
+  if 'elem' in da and 'elem' in db:
+    pairs_.append((da['elem'], db['elem']))
+  if 'elems' in da and 'elems' in db:
+    pairs_ += list(zip(da['elems'], db['elems']))
+  if 'elem' in da and 'elems' in db:
+    pairs_ += [(da['elem'], e) for e in db['elems']]
+  if 'fields' in da and 'fields' in db:
+    fa = dict((k, v) for k, v in da['fields'])
+    pairs_ += [(fa[k], v) for k, v in db['fields'] if k in fa]
+  if da.get('t') == 'union':
+    pairs_ += [(c, db) for c in da.get('cands', [])]
+  return any(_enum_vs_base(x, y) for x, y in pairs_)
 
 
 def execute(case):
@@ -401,8 +424,10 @@ def execute(case):
       except Exception as e:   # pylint: disable=broad-except
         return res.violate('base.is_compatible(extended) raised %r' % e, law='is_compatible-raises', **sig)
       if not back:
+        cause = 'enum-extends-non-enum-base' if _enum_vs_base(da, db) else (
+            ','.join(sorted(_why_narrower(da, db))) or 'other')
         return res.violate('b=%r extends base a=%r into %r, but the base is not compatible with it' % (sb, sa, ext),
-                           law='base-not-compatible-with-extension', **sig)
+                           law='base-not-compatible-with-extension', cause=cause, **sig)
   if (related or da['t'] == db['t'] or 'union' in (da['t'], db['t']) or 'any' in (da['t'], db['t'])) and split:
     res.nontrivial = True
   return res
